@@ -11,6 +11,9 @@ extern "C" {
 void *vf_malloc_at(size_t size, const char *func);
 void  vf_free(void *p);
 void  vf_abort(const char *msg);
+/* the library calls exit() in a few error paths (c_div/z_div "division by zero", readers);
+   route it to the same capture as ABORT so one case cannot end the whole search */
+void  vf_exit(int code) __attribute__((noreturn));
 #ifdef __cplusplus
 }
 #endif
